@@ -14,5 +14,7 @@ def run(ctx):
         r3 = ctx.rule("R03.7" + sfx, "code-length run expansion: repeat codes fill exactly [counter, counter+run) with the previous length (16) "
                       "or zero (17/18) and advance the counter by the run", floor=5, config=cfg)
         ic.rule_repeat_run(ctx, cfg, r3, exact=False)
+        r8 = ctx.rule("R03.8" + sfx, "Huffman tables are rebuilt from scratch: whole fast table overwritten, whole overflow tree zeroed (litlen / dist) before insertion", floor=12, config=cfg)
+        ic.rule_tables_from_scratch(ctx, cfg, r8)
         r6 = ctx.rule("R03.6" + sfx, "slow-path Huffman walk reads only bits that are in the buffer", floor=2, config=cfg)
         ic.rule_bit_reads(ctx, cfg, r6)
